@@ -627,6 +627,8 @@ class ExprMixin:
         if z3.is_int_value(i):
             self.may_raise(st, -i > n, "IndexError", node, f"{what} out of range")
             return n + i
+        if self.spec_mode:
+            return i   # contract expressions: mathematical indexing, no negative wrap-around
         self.may_raise(st, z3.Or(i >= n, i < -n), "IndexError", node, f"{what} out of range")
         return z3.If(i < 0, i + n, i)
 
